@@ -672,4 +672,80 @@ func TestC01(t *testing.T) {
 		Classes:    func(c c1RealCase) []string { return c.Real },
 		Budget:     ev.Budget{Quick: 40, Thorough: 600},
 	})
+	ev.Search(r, ev.Sub[c1Fault]{
+		Name: "writefault", Gen: genC01Fault, Oracle: oracleC01Fault,
+		NonTrivial: func(c c1Fault) bool { return c.Limit < 4096 },
+		Classes:    func(c c1Fault) []string { return []string{fmt.Sprintf("limit-%d", c.Limit)} },
+		Budget:     ev.Budget{Quick: 6, Thorough: 60},
+	})
+}
+
+// ---- write faults: Execute may fail, but it must not return nil over a file that is not what the generator rendered ----
+
+type c1Fault struct {
+	NTypes int  `json:"ntypes"`
+	NDecls int  `json:"ndecls"`
+	Limit  int  `json:"limit"` // RLIMIT_FSIZE in bytes while Execute runs
+	Prev   bool `json:"prev"`  // a previous output of the generator exists
+}
+
+func genC01Fault(t *rapid.T) c1Fault {
+	return c1Fault{NTypes: rapid.IntRange(1, 3).Draw(t, "ntypes"), NDecls: rapid.IntRange(1, 30).Draw(t, "ndecls"),
+		Limit: rapid.SampledFrom([]int{1, 16, 64, 200, 512, 4096}).Draw(t, "limit"), Prev: rapid.Bool().Draw(t, "prev")}
+}
+
+func oracleC01Fault(c c1Fault) error {
+	m := modspec.Mod{Path: "example.com/wf", Go: "1.21"}
+	p := modspec.Pkg{Dir: "a", Name: "a"}
+	f := modspec.GoFile{Name: "types.go"}
+	for j := 0; j < c.NTypes; j++ {
+		f.Decls = append(f.Decls, modspec.Decl{Kind: "struct", Name: fmt.Sprintf("T%d", j), Fields: []modspec.Field{{Names: []string{"A"}, Type: "int"}}})
+	}
+	p.Files = append(p.Files, f)
+	if c.Prev {
+		p.Other = append(p.Other, modspec.File{Name: "zz_generated.g.go", Data: "package a\n\nvar _previous_g = 0\n"})
+	}
+	m.Pkgs = append(m.Pkgs, p)
+	dir := tempModule(&m)
+	defer os.RemoveAll(dir)
+	text := ""
+	for d := 0; d < c.NDecls; d++ {
+		text += fmt.Sprintf("\nvar _$G_$T_%d = \"declaration number %d of this type\"\n", d, d)
+	}
+	s := &script.Script{Name: "g", Mode: "fixed", Default: script.Action{Render: []script.Piece{{Kind: "block", Text: text}}}}
+	res, exit, stderr := script.RunChild(script.RunSpec{Dir: dir, Entrypoints: []string{"./a"}, Globals: map[string][]string{"gengo:g": {""}}, Base: "zz_generated",
+		Scripts: []*script.Script{s}, FileSizeLimit: c.Limit}, os.TempDir())
+	if exit != 0 {
+		panic(fmt.Sprintf("harness: child run exited %d: %s", exit, clip(stderr, 800)))
+	}
+	if res.LoadErr != "" {
+		panic("harness: synthetic module does not load: " + res.LoadErr)
+	}
+	if res.Panic != "" {
+		return fmt.Errorf("Execute panics when writing beyond a file size limit of %d bytes: %s", c.Limit, res.Panic)
+	}
+	if res.Failed {
+		return nil // the write failed and Execute says so: the premise of the statement does not hold
+	}
+	fn := filepath.Join(dir, "a", "zz_generated.g.go")
+	src, err := os.ReadFile(fn)
+	if err != nil {
+		return fmt.Errorf("Execute returned nil under a file size limit of %d bytes, but %s cannot be read: %v", c.Limit, fn, err)
+	}
+	fset := token.NewFileSet()
+	pf, err := parser.ParseFile(fset, fn, src, parser.ParseComments)
+	if err != nil {
+		return fmt.Errorf("Execute returned nil under a file size limit of %d bytes, but the file on disk (%d bytes) does not parse: %v", c.Limit, len(src), err)
+	}
+	if pf.Name.Name != "a" || !strings.Contains(string(src), "gengo:g") {
+		return fmt.Errorf("Execute returned nil under a file size limit of %d bytes, but the file on disk lacks the banner or the package clause:\n%s", c.Limit, clip(string(src), 400))
+	}
+	for j := 0; j < c.NTypes; j++ {
+		for d := 0; d < c.NDecls; d++ {
+			if name := fmt.Sprintf("_g_T%d_%d", j, d); !strings.Contains(string(src), name) {
+				return fmt.Errorf("Execute returned nil under a file size limit of %d bytes, but the file on disk (%d bytes) lacks the rendered declaration %s", c.Limit, len(src), name)
+			}
+		}
+	}
+	return nil
 }
